@@ -107,3 +107,57 @@ Definition read_sq (s : text) : option text :=
   | 39 :: body => sq_body body
   | _ => None
   end.
+
+(* ---- the value of a bytes literal written b'...' : bytesescapeseq of the reference.  Only ASCII may stand raw;
+   backslash-u, -U, -N are not escapes in bytes literals (both characters stay). ---- *)
+Fixpoint bq_body (s : text) : option text :=
+  match s with
+  | [] => None
+  | c :: s1 =>
+    if N.eqb c 39 then match s1 with [] => Some [] | _ => None end
+    else if N.eqb c 0 || N.eqb c 10 || N.eqb c 13 then None
+    else if N.eqb c 92 then
+      match s1 with
+      | [] => None
+      | e :: s2 =>
+        if N.eqb e 92 then cons_opt 92 (bq_body s2)
+        else if N.eqb e 39 then cons_opt 39 (bq_body s2)
+        else if N.eqb e 34 then cons_opt 34 (bq_body s2)
+        else if N.eqb e 110 then cons_opt 10 (bq_body s2)
+        else if N.eqb e 116 then cons_opt 9 (bq_body s2)
+        else if N.eqb e 114 then cons_opt 13 (bq_body s2)
+        else if N.eqb e 102 then cons_opt 12 (bq_body s2)
+        else if N.eqb e 118 then cons_opt 11 (bq_body s2)
+        else if N.eqb e 97 then cons_opt 7 (bq_body s2)
+        else if N.eqb e 98 then cons_opt 8 (bq_body s2)
+        else if N.eqb e 10 then bq_body s2
+        else if N.eqb e 120 then
+          match s2 with
+          | a :: b :: s3 => match hex2 a b with Some v => cons_opt v (bq_body s3) | None => None end
+          | _ => None
+          end
+        else if is_octal e then
+          match s2 with
+          | o2 :: s3 =>
+            if is_octal o2 then
+              match s3 with
+              | o3 :: s4 =>
+                if is_octal o3 then cons_opt ((64 * (e - 48) + 8 * (o2 - 48) + (o3 - 48)) mod 256) (bq_body s4)
+                else cons_opt (8 * (e - 48) + (o2 - 48)) (bq_body s3)
+              | [] => cons_opt (8 * (e - 48) + (o2 - 48)) (bq_body s3)
+              end
+            else cons_opt (e - 48) (bq_body s2)
+          | [] => cons_opt (e - 48) (bq_body s2)
+          end
+        else if N.eqb e 0 || N.eqb e 13 || (128 <=? e) then None
+        else cons_opt 92 (cons_opt e (bq_body s2))
+      end
+    else if 128 <=? c then None                                   (* bytes can only contain ASCII literal characters *)
+    else cons_opt c (bq_body s1)
+  end.
+
+Definition read_bq (s : text) : option text :=
+  match s with
+  | 98 :: 39 :: body => bq_body body
+  | _ => None
+  end.
